@@ -35,15 +35,28 @@ def _inline_only_helper(model: Model, qualname: str, name: str) -> bool:
     """A method the reference tree does not have and that is only ever *called* (never passed as a value, e.g. to _submit)."""
     from .symeval import _known_api
     known = _known_api()
-    if not known or qualname in known or qualname in model.aliases().values():
+    al = model.aliases()
+    if not known or qualname in known or (qualname in al.values() and qualname not in model.moved.values()):
         return False
     fi = model.func(qualname)
     tree = model.modules[fi.module].tree if hasattr(model.modules[fi.module], "tree") else None
     if tree is None:
         return False
     called = {id(n.func) for n in ast.walk(tree) if isinstance(n, ast.Call)}
+    # ... or handed to the executor as the task of a lifecycle function (a task closure turned into a method): analysed as that task
+    called |= {id(n.args[0]) for n in ast.walk(tree) if isinstance(n, ast.Call) and ast.unparse(n.func) == "self._submit" and n.args}
     refs = [n for n in ast.walk(tree) if isinstance(n, ast.Attribute) and n.attr == name]
     return bool(refs) and all(id(n) in called for n in refs)
+
+
+def submitted_task(model: Model, cls: str, t: T.Term):
+    """FuncInfo of a bound helper method `self.<m>` handed to _submit (None for anything else)."""
+    if t[0] == "sym" and t[1].startswith("self.") and t[1].count(".") == 1:
+        name = t[1].split(".", 1)[1]
+        q = f"{cls}.{name}"
+        if q in model.functions and _inline_only_helper(model, q, name):
+            return model.functions[q]
+    return None
 
 
 class AsyncView:
@@ -71,8 +84,22 @@ class AsyncView:
             ev = SymEval(model, self_types={"self.input_node": NODE, "self.output_node": NODE})
             r = ev.run_function(fi)
             # the task closure is the one handed to self._submit, whatever it is called (logical key keeps the reference name)
-            subm = [e for e in r.events if e.kind == "call" and e.name == "self._submit" and e.args and e.args[0][0] == "closure" and e.func == fi.qualname]
+            subm = [e for e in r.events if e.kind == "call" and e.name == "self._submit" and e.args and e.func == fi.qualname
+                    and (e.args[0][0] == "closure" or submitted_task(model, cls, e.args[0]) is not None)]
             c = subm[0].args[0] if len(subm) == 1 else r.env.get(clo)
+            meth = submitted_task(model, cls, c) if c is not None else None
+            if meth is not None:
+                # the task is a method of the wrapper, submitted with its arguments: same logical task
+                self.fi_of[f"{key}.{parent}.{clo}"] = meth
+                n0 = len(ev.events)
+                ev.live, ev.loop_stack = T.TRUE, ()
+                ev.inline_call(meth, list(subm[0].args[1:]), [kv for kv in subm[0].kwargs if kv[0] != "stopping"], S("self"), subm[0].node, r.frame)
+                sub = Result(ev, r.frame)
+                sub.events = ev.events[n0:]
+                self.results[f"{key}.{parent}.{clo}"] = sub
+                self.cls_of[f"{key}.{parent}.{clo}"] = key
+                self.task_methods = getattr(self, "task_methods", set()) | {c}
+                continue
             if c is None or c[0] != "closure":
                 # the lifecycle function no longer hands a task to the executor: analysed as an empty task; the typestate and
                 # flip-submit rules report it (C05), the other properties have nothing to say about a task that does not exist
@@ -648,7 +675,7 @@ def rule_typestate(chk: Check, view: AsyncView, rid: str):
         flips = [e for e in r.events if e.kind == "store_attr" and e.name == "self._state" and e.func == fq]
         subs = [e for e in r.events if e.kind == "call" and e.name == "self._submit" and e.func == fq]
         ok = len(flips) == 1 and len(subs) == 1 and "self._lock" in flips[0].ctx and "self._lock" in subs[0].ctx and flips[0].idx < subs[0].idx \
-            and subs[0].args and subs[0].args[0][0] == "closure"
+            and subs[0].args and (subs[0].args[0][0] == "closure" or subs[0].args[0] in getattr(view, "task_methods", ()))
         if ok and flag:
             ok = dict(subs[0].kwargs).get("stopping") == T.TRUE
         chk.add(rid, f"flip-submit:{key}", ok, f"{key}: the state flip and the submission of {clo}" + (" with stopping=True" if flag else "") +
